@@ -120,6 +120,8 @@ def main():
     for k, et in enumerate(types):
         dim = M.dim_of(et)
         variants = ["affine+renumbered", "polygon"] if dim == 2 else ["affine+renumbered"]
+        if et in ("HEXA8", "PRISM6"):
+            variants = variants + ["interior nodes moved"]     # straight edges, non-planar faces: genuinely trilinear geometry
         if thorough:
             variants = variants + ["plain"]
         for variant in variants:
@@ -130,6 +132,14 @@ def main():
             else:
                 mesh = M.mesh_3d(et, 2.0, 1.0, 1.5, 0.5, 3)
             A, t = np.eye(3), np.zeros(3)
+            if variant == "interior nodes moved":
+                Xm = mesh.coord.copy()
+                f = 1 + 0.2 * Xm[:, 2]                      # frustum: the box tapered along z (edges stay straight)
+                Xm[:, 0] *= f
+                Xm[:, 1] *= f * (1 + 0.1 * Xm[:, 0])
+                inner = np.setdiff1d(np.arange(mesh.Nn), boundary_nodes(mesh))
+                Xm[inner] += np.array([[rng.randint(-8, 8) / 100 for _ in range(3)] for _ in inner])
+                mesh.coord = Xm
             if variant.startswith("affine"):
                 A, t = rand_affine(rng, dim)
                 M.affine(mesh, A, t)
